@@ -128,6 +128,54 @@ const LITPOSITIONS: [(&str, &str); 6] = [
     ("rigid-type-parameter", "fn d[T](o: GOpt[T]) -> int32 { match o { GSom(§) => 1, _ => 0 } }\nfn main() { string_println(int32_to_string(d(GSom(@)))) }"),
 ];
 
+/// types written in a program: (spelling, well-formed?). `Bx` is a one-parameter generic struct,
+/// `Show` a trait, `T` the type parameter of the enclosing generic function (only there).
+const WRITTEN_TYPES: [(&str, bool); 22] = [
+    ("int32", true),
+    ("Vec[int32]", true),
+    ("Bx[int32]", true),
+    ("Bx[Bx[bool]]", true),
+    ("dyn Show", true),
+    ("(int32, Bx[string])", true),
+    ("Nope", false),
+    ("Vec[Nope]", false),
+    ("Ref[Nope]", false),
+    ("[Nope; 2]", false),
+    ("(int32, Nope)", false),
+    ("(Nope) -> int32", false),
+    ("() -> Nope", false),
+    ("Bx[Nope]", false),
+    ("Bx", false),
+    ("Bx[int32, string]", false),
+    ("Vec[Bx[int32, string]]", false),
+    ("P[int32]", false),
+    ("int32[bool]", false),
+    ("dyn Missing", false),
+    ("Vec[dyn Missing]", false),
+    ("dyn P", false),
+];
+/// where a type can be written; § = the type. `any()` gives a value of any type without the program
+/// having to construct one.
+const TYPE_POSITIONS: [(&str, &str); 16] = [
+    ("param", "fn f(x: §) -> int32 { 1 }\nfn main() { string_println(\"x\") }"),
+    ("result", "fn f() -> § { any() }\nfn main() { string_println(\"x\") }"),
+    ("struct-field", "struct Q { a: § }\nfn main() { string_println(\"x\") }"),
+    ("enum-payload", "enum Z { Za(§), Zb }\nfn main() { string_println(\"x\") }"),
+    ("let-annotation", "fn main() { let v: § = any(); string_println(\"x\") }"),
+    ("let-annotation-unused-fn", "fn g() -> unit { let v: § = any(); () }\nfn main() { string_println(\"x\") }"),
+    ("let-annotation-in-closure", "fn main() { let c = || { let v: § = any(); 1 }; string_println(int32_to_string(c())) }"),
+    ("let-annotation-in-match-arm", "fn main() { let r = match 1 { 1 => { let v: § = any(); 2 }, _ => 3 }; string_println(int32_to_string(r)) }"),
+    ("let-pattern-annotation", "fn main() { let (v, w): (§, int32) = (any(), 1); string_println(int32_to_string(w)) }"),
+    ("closure-param", "fn main() { let c = |y: §| 1; string_println(\"x\") }"),
+    ("closure-param-nested", "fn main() { let c = || { let d = |y: §| 1; 2 }; string_println(int32_to_string(c())) }"),
+    ("closure-param-second", "fn main() { let c = |k: int32, y: §| k; string_println(\"x\") }"),
+    ("method-param", "impl P { fn m(self: P, x: §) -> int32 { 1 } }\nfn main() { string_println(\"x\") }"),
+    ("trait-method-param", "trait Tq { fn m(Self, §) -> int32; }\nfn main() { string_println(\"x\") }"),
+    ("extern-param", "extern \"go\" \"time\" \"Do\" do0(x: §) -> int32\nfn main() { string_println(\"x\") }"),
+    ("let-annotation-in-generic-fn", "fn h[T](t: T) -> int32 { let v: § = any(); 1 }\nfn main() { string_println(int32_to_string(h(true))) }"),
+];
+const TYPE_PRELUDE: &str = "struct Bx[T] { v: T }\ntrait Show { fn show(Self) -> string; }\nimpl Show for int32 { fn show(self: int32) -> string { \"i\" } }\nfn any[T]() -> T { any() }\n";
+
 pub struct IllTyped;
 
 impl Family for IllTyped {
@@ -138,7 +186,7 @@ impl Family for IllTyped {
         &["C03", "C04"]
     }
     fn rule(&self) -> &'static str {
-        "22 typed positions (operator operands, annotated let, parameters, conditions, return position, struct field, constructor payload, array element/index/set, ref_set, vec_push, branches, closure/method/generic arguments) x 10 expressions of different types (the well-typed one must be accepted, the other nine rejected by the typer); 18 structural errors (array length in annotation/param/return, unknown/missing/extra field, call and constructor arity, tuple projection range, pattern arity/type, calling a non-function, unknown type/variant); literal patterns: 4 literal kinds x 10 scrutinee types x 6 positions (directly; under a generic constructor, in a tuple from a generic call, on a closure parameter, on a let-bound generic result - the scrutinee's type still being inferred; against a rigid type parameter): rejected unless the literal's kind is the type's; operator domain: 12 binary + 2 unary operators x 13 operand types, written directly and inside a generic function instantiated at the type (accepted iff inside the documented domain). non-trivial = ill-typed variants; distinct = distinct source text"
+        "22 typed positions (operator operands, annotated let, parameters, conditions, return position, struct field, constructor payload, array element/index/set, ref_set, vec_push, branches, closure/method/generic arguments) x 10 expressions of different types (the well-typed one must be accepted, the other nine rejected by the typer); 18 structural errors (array length in annotation/param/return, unknown/missing/extra field, call and constructor arity, tuple projection range, pattern arity/type, calling a non-function, unknown type/variant); literal patterns: 4 literal kinds x 10 scrutinee types x 6 positions (directly; under a generic constructor, in a tuple from a generic call, on a closure parameter, on a let-bound generic result - the scrutinee's type still being inferred; against a rigid type parameter): rejected unless the literal's kind is the type's; written types: 24 spellings (6 well-formed; unknown names bare and under Vec / Ref / array / tuple / function types / a generic struct, a generic struct with no / too many arguments also under Vec, arguments given to a non-generic struct or a builtin, dyn of a missing trait / of a struct, the enclosing function's type parameter and one that is nobody's) x 16 places a type can be written (parameter, result, struct field, enum payload, let annotation in main / in an unused function / in a closure / in a match arm / on a tuple pattern / in a generic function, closure parameter plain / nested / second, method parameter, trait method parameter, extern parameter): accepted iff well-formed; operator domain: 12 binary + 2 unary operators x 13 operand types, written directly and inside a generic function instantiated at the type (accepted iff inside the documented domain). non-trivial = ill-typed variants; distinct = distinct source text"
     }
     fn cases(&self, _tier: Tier) -> Box<dyn Iterator<Item = Value> + '_> {
         let mut v = Vec::new();
@@ -163,6 +211,14 @@ impl Family for IllTyped {
                     v.push(json!({"kind": "literal-pattern", "position": pos, "literal": lk, "ty": t}));
                 }
             }
+        }
+        for (pos, _) in TYPE_POSITIONS {
+            for (t, _) in WRITTEN_TYPES {
+                v.push(json!({"kind": "written-type", "position": pos, "ty": t}));
+            }
+            // the enclosing function's type parameter, and one that is nobody's
+            v.push(json!({"kind": "written-type", "position": pos, "ty": "Vec[T]"}));
+            v.push(json!({"kind": "written-type", "position": pos, "ty": "Vec[U]"}));
         }
         // the same table with the operator inside a generic function instantiated at the type
         for (t, _, _, _) in OPTYPES {
@@ -194,6 +250,16 @@ impl Family for IllTyped {
                 // a rigid type parameter admits no literal pattern at all
                 let ok = *admits == lk && pos != "rigid-type-parameter";
                 (text, ok, format!("literal-pattern={};literal={};ty={}", pos, lk, ty))
+            }
+            "written-type" => {
+                let (pos, ty) = (case["position"].as_str().unwrap(), case["ty"].as_str().unwrap());
+                let (_, tmpl) = TYPE_POSITIONS.iter().find(|(n, _)| *n == pos).unwrap();
+                let ok = match ty {
+                    "Vec[T]" => pos == "let-annotation-in-generic-fn",
+                    "Vec[U]" => false,
+                    _ => WRITTEN_TYPES.iter().find(|(t, _)| *t == ty).unwrap().1,
+                };
+                (format!("{}{}{}\n", PRELUDE, TYPE_PRELUDE, tmpl.replace('§', ty)), ok, format!("written-type={};ty={}", pos, ty))
             }
             "structural" => {
                 let n = case["name"].as_str().unwrap();
